@@ -372,7 +372,11 @@ func vFsStubs() map[string]interface{} {
 func vNewEmuOn(kind int) *GcsEmu {
 	g := vNewEmu()
 	if kind == 1 {
-		g.store = NewFileStore("/gcs")
+		if !vSymbolic() {
+			g.store = vNativeFileStore()
+		} else {
+			g.store = NewFileStore("/gcs")
+		}
 	}
 	return g
 }
@@ -503,4 +507,19 @@ func stubFsTruncatePath(name string, size int64) error {
 		return err
 	}
 	return stubFileTruncate(f, size)
+}
+
+// vRestartOn returns a new emulator on the same storage as g (a new process on the same directory).
+func vRestartOn(g *GcsEmu) *GcsEmu {
+	n := vNewEmu()
+	n.store = NewFileStore(g.store.(*filestore).gcsDir)
+	return n
+}
+
+// vForeignFile writes a content file straight into the file store's directory, without a side-car.
+func vForeignFile(g *GcsEmu, bucket, name string, content []byte) error {
+	if !vSymbolic() {
+		return vNativeWriteFile(g.store, bucket, name, content)
+	}
+	return stubFsWriteFile("/gcs/"+bucket+"/"+name, content, 0666)
 }
